@@ -92,6 +92,7 @@ def judge(res, scratch, recs, states, header, large=False):
     fw.write_text(tsv, tsv_text(states, header))
     if os.path.exists(outp):
         os.remove(outp)
+    res.next_call()
     out = fw.guarded(phase.run, gaf_file=gaf, tsv_file=tsv, output=outp)
     res.evaluations += 1
     case = {"records": [r.line() for r in recs], "states": list(states), "header": header}
@@ -149,7 +150,7 @@ def plan(tier, seed):
 
 
 def run_shard(spec, tier, scratch):
-    res = fw.ShardResult()
+    res = fw.ShardResult().begin(spec, tier)
     A = alphabet()
     n = 0
     for k in range(1, bounds(tier)["max_records"] + 1):
